@@ -99,6 +99,17 @@ Definition seg_case (comp sc : bool) (pat len seed : Z) (cp : option (list Z)) (
          end
   end.
 
+(* outcome class of encode-then-decode in the model: true iff both succeed.  Used for records on which the
+   implementation encoded a payload and then failed to decode its own output (the case term is `negb (seg_decodes ...)`):
+   the model has exactly the size checks of decodeSegmentPayload, so it must fail on the same payloads and no others. *)
+Definition seg_decodes (comp sc : bool) (pat len seed : Z) (cp : option (list Z)) (cplen : Z) (rest : list Z) : bool :=
+  let p := gen_payload pat len seed in
+  let c := if comp then Some (case_oracle cp cplen p) else None in
+  match encode_segment_full c sc p with
+  | Err => false
+  | Ok (bs, _) => match decode_segment c (bs ++ rest) with Err => false | Ok _ => true end
+  end.
+
 (* the decoder on arbitrary input: expected = None for an error *)
 Definition raw_case (comp : bool) (input : list Z) (oracle_in oracle_out : option (list Z))
     (expected : option (dec_obs * list Z)) : bool :=
